@@ -491,8 +491,12 @@ class RealRun:
         if isinstance(v, list) and len(v) == 3 and v[0] == "<exc>":
             import builtins
 
-            return getattr(builtins, v[1])(v[2])
+            exc = getattr(builtins, v[1])(v[2])
+            RealRun._made_exc.append(exc)
+            return exc
         return v
+
+    _made_exc: list = []  # exception instances handed to resolve() as data (identity matters below)
 
     @staticmethod
     def _norm(v):
@@ -528,7 +532,13 @@ class RealRun:
                     got = yield (stmt["d"], self._style(evs, stmt.get("side_style", "list")))
                 self.log.append(("R", self.clock.now.nanoseconds, pid, path, self._norm(got)))
             elif op == "await":
-                got = yield self._build_fexpr(stmt["f"])
+                try:
+                    got = yield self._build_fexpr(stmt["f"])
+                except Exception as exc:  # noqa: BLE001
+                    # a resolved VALUE that is an exception instance must be received, not raised at the yield
+                    if not any(exc is v for v in RealRun._made_exc):
+                        raise
+                    got = ["<raised-at-yield>", type(exc).__name__]
                 self.log.append(("R", self.clock.now.nanoseconds, pid, path, self._norm(got)))
             else:
                 raise ValueError(op)
